@@ -27,6 +27,21 @@ META = {
 }
 
 
+def replay(ctx, obj):
+    """Re-execute the case of a replay file on the current tree (the adapter judges it)."""
+    rep = obj.get("replay") or {}
+    case = rep.get("case")
+    if not case:
+        raise Inconclusive("replay file has no case")
+    binary = ctx.go_build("vh-spatial")
+    v = ctx.run_cases(binary, "pred", [dict(case)], timeout_ms=120000, name="replay")[0]
+    ctx.evaluations += 1
+    keys = {e.get("key") for e in ((v.get("obs") or {}).get("events") or []) if e.get("go_bad")}
+    if obj.get("key") in keys:
+        ctx.fail(obj["key"], obj.get("what", ""), rep)
+    return ctx.finish("exploration", rule="replay of one recorded case", exhaustive=False)
+
+
 def run(ctx):
     r = ctx.tlc("SpatialPredicatesTables", "SpatialPredicatesTables.cfg")
     rows = r.lines.get("ROW", [])
